@@ -1,5 +1,6 @@
 import MesaModel.Proofs.Devs
 import MesaModel.Gen.DevsTables
+import MesaModel.Proofs.DevsHeap
 /-!
 # C14 — the simulators run each live event once, in (time, priority, FIFO) order
 
@@ -161,6 +162,31 @@ theorem C14_upfront_events_run_in_sorted_order {s s' : Sim} {f : Nat} {T : Int} 
         have hxT : x.time ≤ T := Int.le_trans hxe ht
         simp only [List.takeWhile_cons, hxT, decide_true, if_true, List.mem_cons]
         exact Or.inr (ih hmem hx.2)
+
+/-- `heapq` — transcribed from CPython's Lib/heapq.py in `Model/Heap.lean` and compared with the real module by the
+    check — is a correct priority queue for `SimulationEvent.__lt__` (a strict weak order): `heappush` and `heappop`
+    keep the heap invariant and the multiset of events, and `heappop` hands out a minimum, the root of the array. -/
+theorem C14_heapq_is_priority_queue :
+    Heap.SWO Ev.lt ∧
+    (∀ (hp : List Ev) (e : Ev), Heap.IsHeap Ev.lt hp →
+      Heap.IsHeap Ev.lt (Heap.heappush Ev.lt hp e) ∧ (Heap.heappush Ev.lt hp e).Perm (e :: hp)) ∧
+    (∀ (hp hp' : List Ev) (m : Ev), Heap.IsHeap Ev.lt hp → Heap.heappop Ev.lt hp = some (m, hp') →
+      hp.Perm (m :: hp') ∧ Heap.IsHeap Ev.lt hp' ∧ (∀ y ∈ hp', y.lt m = false) ∧ hp[0]? = some m) :=
+  ⟨ev_swo, fun hp e h => ⟨Heap.heappush_heap ev_swo h e, Heap.heappush_perm Ev.lt hp e⟩,
+   fun _ _ _ h hpop => Heap.heappop_spec ev_swo h hpop⟩
+
+/-- The model's sorted event list is a sound abstraction of the heap array `EventList` keeps: starting from empty
+    queues, `add_event` (heappush ↔ sorted insertion) and `pop_event` (heappop until a live event ↔ `popLive`) keep
+    array and list in correspondence — same events, and every pop hands out the same event on both sides. -/
+theorem C14_heap_refines_sorted_queue :
+    Refines [] [] ∧
+    (∀ (hp s : List Ev) (e : Ev), Refines hp s → (∀ x ∈ s, x.id ≠ e.id) →
+      Refines (Heap.heappush Ev.lt hp e) (insert e s)) ∧
+    (∀ (hp s : List Ev), Refines hp s →
+      match popLive s with
+      | some (e, rest) => ∃ hp', heapPopLive (s.length + 1) hp = some (e, hp') ∧ Refines hp' rest
+      | none => heapPopLive (s.length + 1) hp = none) :=
+  ⟨refines_nil, fun _ _ e r hid => refines_push r e hid, fun _ _ r => refines_popLive r⟩
 
 /-- The priority levels the source defines (regenerated from `eventlist.py` on every run) are the three the model and
     the harness use, and they order events as documented: HIGH before DEFAULT before LOW. -/
